@@ -66,7 +66,7 @@ type res2 struct {
 func runPair(t *testing.T, c Case2) res2 {
 	t.Helper()
 	res := res2{Case: c}
-	idA, idB := txid("txn-A-id-aaa"), txid("txn-B-id-bbb")
+	idA, idB := txid("txn-id-pair0"), txid("txn-id-pair1") // differ in one bit of the last byte
 	rto := effRTO(c.RTOms)
 	offB := time.Duration(0)
 	if c.OffB == "half" {
